@@ -15,7 +15,7 @@ let nonvalue_const_array (sy : sys) : bool = List.exists has_nonvalue_aconst (al
 (* the same question about the script the encoding produces: a literal that is a constraint or bad
    state is a signal and is replaced by its step symbol, also below (as const ..) *)
 let script_nonvalue_const_array (sy : sys) (nm : expr -> char list) (n : int) : bool =
-  let sc = script Current (enc_new sy nm) N0 (N.to_nat (n_of_int n)) in
+  let sc = script code_variant (enc_new sy nm) N0 (N.to_nat (n_of_int n)) in
   List.exists (function DefineFun (_, _, b) -> has_nonvalue_aconst b | DeclareConst (_, _) -> false) sc
 
 let event_of_sexp (x : Sexp.t) : event =
@@ -36,7 +36,7 @@ let loop_check fs (sy : sys) (k : int) : string option =
       let ca = Sexp.atom (Sexp.field1 "check-assuming" l) = "yes" in
       let indiv = Sexp.atom (Sexp.field1 "mode" l) = "indiv" in
       let nm = names_of_case fs in
-      let model = bmc_events Current sy nm ca indiv (N.to_nat (n_of_int k)) in
+      let model = bmc_events code_variant sy nm ca indiv (N.to_nat (n_of_int k)) in
       (match Sexp.field_opt "events" l, model with
        | Some evs, Some m ->
            let impl = List.map event_of_sexp evs in
